@@ -86,8 +86,7 @@ def run(pid, tier):
         obs = pc.execute(rep, scen, b, 'C01' + b)
         if b == 'default':
             sub = [i for i in range(len(scen)) if scen[i].get('qcap', 16) >= 4]
-            pc.validate(rep, 'C01', [scen[i] for i in sub], [obs[i] for i in sub], 'C01-default', fields=pc.FIELDS['C08'] | {'overrun-executed'},
-                        kindfn=lambda rec, rel, hints: '' if 'h:newline-inside-open-string' in hints else None)
+            pc.validate(rep, 'C01', [scen[i] for i in sub], [obs[i] for i in sub], 'C01-default', fields=pc.FIELDS['C08'] | {'overrun-executed'})
     def nontriv(sc):
         st = [b for c in sc['chunks'] for b in c]
         return any(b == 0 or b >= 128 for b in st) or len(sc['chunks']) > 2 or len(st) >= sc['buf']
